@@ -99,6 +99,7 @@ type World struct {
 	Cmds      []*CmdResult
 	Seen      map[string][]TargetSeen
 	Crashes   []CrashCopy
+	Obs       []*Observation
 	Logs      []map[string]any
 	tids      map[*server.Target]string
 	lbids     map[*server.LoadBalancer]string
@@ -118,6 +119,21 @@ type World struct {
 type pointWaiter struct {
 	n  int
 	ch chan struct{}
+}
+
+func (w *World) bumpPointLocked(point string) {
+	w.pointN[point]++
+	if ws := w.waiters[point]; len(ws) > 0 {
+		keep := ws[:0]
+		for _, pw := range ws {
+			if w.pointN[point] >= pw.n {
+				close(pw.ch)
+			} else {
+				keep = append(keep, pw)
+			}
+		}
+		w.waiters[point] = keep
+	}
 }
 
 // waitPoint blocks until the yield point has been released n times in total,
@@ -318,18 +334,7 @@ func (w *World) nameFor(point string, arg any) string {
 func (w *World) onStep(t *Task) {
 	e := Event{Kind: "step", Task: t.name, Info: t.point}
 	w.mu.Lock()
-	w.pointN[t.point]++
-	if ws := w.waiters[t.point]; len(ws) > 0 {
-		keep := ws[:0]
-		for _, pw := range ws {
-			if w.pointN[t.point] >= pw.n {
-				close(pw.ch)
-			} else {
-				keep = append(keep, pw)
-			}
-		}
-		w.waiters[t.point] = keep
-	}
+	w.bumpPointLocked(t.point)
 	switch o := t.arg.(type) {
 	case *http.Request:
 		e.Req = o.Header.Get("X-Request-Id")
@@ -438,6 +443,16 @@ func (w *World) execOp(actor string, idx int, op *Op) {
 	}
 	switch op.Kind {
 	case "sleep":
+	case "observe":
+		rep := w.Sc.Params["obs_repeat"]
+		if rep == 0 {
+			rep = 3
+		}
+		keys := matrixKeysFor(w.Sc, w.Sc.Params["obs_cookie"] != 0)
+		if w.Sc.Params["rt_matrix"] != 0 {
+			keys = routingMatrixKeys(w.Sc.Seed)
+		}
+		w.Observe(actor, idx, op, keys, rep)
 	case "request":
 		if w.Sc.Server {
 			w.doRawRequest(actor, idx, op)
@@ -578,6 +593,9 @@ func (w *World) doCommand(actor string, idx int, op *Op) {
 	res.RetT = w.S.Now()
 	res.Ret = w.H.Add(e)
 	w.S.NotePoint("cmd.ret")
+	w.mu.Lock()
+	w.bumpPointLocked("cmd.ret")
+	w.mu.Unlock()
 }
 
 // ---- direct-mode requests --------------------------------------------------
@@ -673,11 +691,15 @@ func (w *World) newReqID(actor string, idx int) string {
 }
 
 func (w *World) doRequest(actor string, idx int, op *Op) {
-	ri := w.router(op.Router)
 	rid := w.newReqID(actor, idx)
 	if op.Router != "" && op.Router != "A" {
 		rid += "@" + op.Router
 	}
+	w.doRequestID(actor, idx, op, rid)
+}
+
+func (w *World) doRequestID(actor string, idx int, op *Op, rid string) *Response {
+	ri := w.router(op.Router)
 	method := op.Method
 	if method == "" {
 		method = "GET"
@@ -699,7 +721,7 @@ func (w *World) doRequest(actor string, idx int, op *Op) {
 	w.mu.Unlock()
 	if err != nil {
 		resp.Err = "bad request: " + err.Error()
-		return
+		return resp
 	}
 	req.RequestURI = uri
 	host := op.Host
@@ -760,6 +782,7 @@ func (w *World) doRequest(actor string, idx int, op *Op) {
 	}
 	resp.RetT = w.S.Now()
 	resp.Ret = w.H.Add(Event{Kind: "req.ret", Actor: actor, Op: idx, Req: rid, Status: resp.Status, Target: resp.ServedBy, N: len(resp.Body), Err: resp.Err})
+	return resp
 }
 
 // ---- server-mode raw requests ---------------------------------------------
